@@ -40,7 +40,11 @@ type Finding struct {
 }
 
 func loadScope(id string) ([]scopeUnit, error) {
-	f, err := os.Open(filepath.Join(verifRoot, "props", id+".scope"))
+	dir := filepath.Join(verifRoot, "props")
+	if d := os.Getenv("VFY_PROPS"); d != "" {
+		dir = d // experiments with a scope file outside /verif
+	}
+	f, err := os.Open(filepath.Join(dir, id+".scope"))
 	if err != nil {
 		return nil, err
 	}
